@@ -315,37 +315,12 @@ fn gen_scenario(keys: &[Vec<u8>], rng: &mut Rng, out: &mut Out) -> Scenario {
             steps.push((1, f, Role::Setup, format!("create {:?}", t)));
         }
     }
-    let rounds = if rng.gen_bool(0.25) { 2 } else { 1 };
+    let rounds = if rng.gen_bool(0.35) { 2 } else { 1 };
     for _ in 0..rounds {
-        // WATCH
-        let watched: Vec<usize> = match rng.gen_range(0..10) {
-            0..=1 => vec![],
-            2..=6 => vec![rng.gen_range(0..nk)],
-            _ => {
-                let a = rng.gen_range(0..nk);
-                let b = rng.gen_range(0..nk);
-                if a == b { vec![a] } else { vec![a, b] }
-            }
-        };
-        out.count(&format!("watched_keys:{}", watched.len()));
-        if !watched.is_empty() {
-            for &i in &watched {
-                for (j, p) in probes(&keys[i]).into_iter().enumerate() {
-                    steps.push((1, p, Role::ProbeW(i, j), "probe".into()));
-                }
-            }
-            let mut args: Vec<&[u8]> = vec![b"WATCH"];
-            for &i in &watched {
-                args.push(&keys[i]);
-            }
-            steps.push((0, enc(&args), Role::Watch(watched.clone()), "watch".into()));
-            if rng.gen_range(0..12) == 0 {
-                steps.push((0, enc(&[b"UNWATCH"]), Role::After, "unwatch".into()));
-                steps.push((0, enc(&args), Role::Watch(watched.clone()), "watch".into()));
-            }
-        }
-        // B between WATCH and MULTI
-        let wr = |steps: &mut Vec<(usize, Vec<u8>, Role, String)>, rng: &mut Rng, out: &mut Out| {
+        // WATCH phase: 0-3 WATCH commands (overlapping key lists, a key may be repeated inside one
+        // WATCH), B writing between any two of them, sometimes an UNWATCH in between
+        let mut watched: Vec<usize> = Vec::new(); // keys watched when MULTI arrives (generator's view)
+        let wr = |steps: &mut Vec<(usize, Vec<u8>, Role, String)>, rng: &mut Rng, out: &mut Out, watched: &Vec<usize>| {
             let i = if !watched.is_empty() && rng.gen_bool(0.7) { *watched.choose(rng).unwrap() } else { rng.gen_range(0..nk) };
             let (l, fs) = modify(&keys[i], rng);
             out.count(&format!("b_write:{}", l));
@@ -353,8 +328,57 @@ fn gen_scenario(keys: &[Vec<u8>], rng: &mut Rng, out: &mut Out) -> Scenario {
                 steps.push((1, f, Role::Between, l.clone()));
             }
         };
-        for _ in 0..rng.gen_range(0..2) {
-            wr(&mut steps, rng, out);
+        let nwatch = match rng.gen_range(0..10) { 0..=1 => 0, 2..=5 => 1, 6..=8 => 2, _ => 3 };
+        out.count(&format!("watch_commands:{}", nwatch));
+        for _ in 0..nwatch {
+            let mut ks: Vec<usize> = match rng.gen_range(0..10) {
+                0..=5 => vec![rng.gen_range(0..nk)],
+                6..=8 => vec![rng.gen_range(0..nk), rng.gen_range(0..nk)],
+                _ => vec![rng.gen_range(0..nk), rng.gen_range(0..nk), rng.gen_range(0..nk)],
+            };
+            // re-watch an already watched key more often than chance would
+            if !watched.is_empty() && rng.gen_bool(0.5) {
+                ks[0] = *watched.choose(rng).unwrap();
+            }
+            if ks.iter().any(|k| watched.contains(k)) {
+                out.count("watch:key_watched_again");
+            }
+            let mut distinct = ks.clone();
+            distinct.sort();
+            distinct.dedup();
+            if distinct.len() < ks.len() {
+                out.count("watch:key_repeated_in_one_watch");
+            }
+            for &i in &distinct {
+                for (j, p) in probes(&keys[i]).into_iter().enumerate() {
+                    steps.push((1, p, Role::ProbeW(i, j), "probe".into()));
+                }
+            }
+            let mut args: Vec<&[u8]> = vec![b"WATCH"];
+            for &i in &ks {
+                args.push(&keys[i]);
+            }
+            steps.push((0, enc(&args), Role::Watch(ks.clone()), "watch".into()));
+            for k in distinct {
+                if !watched.contains(&k) {
+                    watched.push(k);
+                }
+            }
+            if rng.gen_range(0..8) == 0 {
+                steps.push((0, enc(&[b"UNWATCH"]), Role::After, "unwatch".into()));
+                watched.clear();
+                out.count("watch:unwatch");
+            }
+            // B between two WATCHes / between WATCH and MULTI
+            for _ in 0..rng.gen_range(0..3) {
+                wr(&mut steps, rng, out, &watched);
+            }
+        }
+        out.count(&format!("watched_keys:{}", watched.len()));
+        if nwatch == 0 {
+            for _ in 0..rng.gen_range(0..2) {
+                wr(&mut steps, rng, out, &watched);
+            }
         }
         steps.push((0, enc(&[b"MULTI"]), Role::Multi, "multi".into()));
         // body
@@ -385,11 +409,11 @@ fn gen_scenario(keys: &[Vec<u8>], rng: &mut Rng, out: &mut Out) -> Scenario {
             out.count(&format!("body:{}", label));
             steps.push((0, frame, Role::Body(queued), label.into()));
             if rng.gen_range(0..4) == 0 {
-                wr(&mut steps, rng, out);
+                wr(&mut steps, rng, out, &watched);
             }
         }
         for _ in 0..rng.gen_range(0..2) {
-            wr(&mut steps, rng, out);
+            wr(&mut steps, rng, out, &watched);
         }
         for i in 0..nk {
             for (j, p) in probes(&keys[i]).into_iter().enumerate() {
@@ -456,7 +480,7 @@ fn main() {
         let mut aborted = false; // a queue-time error was answered
         let mut queued: Vec<Vec<u8>> = Vec::new();
         let mut watched: Vec<usize> = Vec::new();
-        let mut fp_w: std::collections::BTreeMap<usize, Vec<Vec<u8>>> = Default::default();
+        let mut fp_w: std::collections::BTreeMap<usize, Vec<Vec<Vec<u8>>>> = Default::default(); // per key: one fingerprint per WATCH instant
         let mut fp_e: std::collections::BTreeMap<usize, Vec<Vec<u8>>> = Default::default();
         let mut dump_b: std::collections::BTreeMap<(usize, usize), Vec<u8>> = Default::default();
         let mut twin: Vec<(usize, Vec<u8>)> = Vec::new(); // twin schedule
@@ -469,9 +493,8 @@ fn main() {
                 Role::Setup | Role::Between => twin.push((s.0, s.1.clone())),
                 Role::After => {
                     if s.3 == "unwatch" {
-                        // no write happens between the probes, the UNWATCH and the repeated WATCH:
-                        // the fingerprints taken before the first WATCH stay valid
                         watched.clear();
+                        fp_w.clear();
                     }
                     if !(r.starts_with(b"-ERR EXEC without") || r.starts_with(b"-ERR DISCARD without") || s.3 == "unwatch") {
                         twin.push((s.0, s.1.clone()));
@@ -489,11 +512,12 @@ fn main() {
                     }
                 }
                 Role::ProbeW(k, jj) => {
+                    // a key watched again keeps its EARLIER snapshots too (watched_keys is appended to)
                     let e = fp_w.entry(*k).or_insert_with(Vec::new);
                     if *jj == 0 {
-                        e.clear();
+                        e.push(Vec::new());
                     }
-                    e.push(r.clone());
+                    e.last_mut().unwrap().push(r.clone());
                     twin.push((s.0, s.1.clone()));
                     twin_expect.push((twin.len() - 1, r.clone()));
                 }
@@ -556,11 +580,19 @@ fn main() {
                         for &k in &watched {
                             let w = fp_w.get(&k).cloned().unwrap_or_default();
                             let e = fp_e.get(&k).cloned().unwrap_or_default();
-                            // every snapshot of the key (it may have been watched more than once) must equal the EXEC-time fingerprint
-                            let snaps: Vec<Vec<Vec<u8>>> = vec![w.clone()];
-                            if snaps.iter().any(|sn| *sn != e) {
-                                let nonstring_both = snaps.iter().all(|sn| sn.first().map(|g| g.starts_with(b"-WRONGTYPE")).unwrap_or(false)) && e.first().map(|g| g.starts_with(b"-WRONGTYPE")).unwrap_or(false);
+                            // EVERY snapshot of the key since the last EXEC / DISCARD / UNWATCH (it may have been
+                            // watched more than once) must equal the EXEC-time fingerprint: the first WATCH decides
+                            let differing: Vec<&Vec<Vec<u8>>> = w.iter().filter(|sn| **sn != e).collect();
+                            if !differing.is_empty() {
+                                let e_ns = e.first().map(|g| g.starts_with(b"-WRONGTYPE")).unwrap_or(false);
+                                let nonstring_both = e_ns && differing.iter().all(|sn| sn.first().map(|g| g.starts_with(b"-WRONGTYPE")).unwrap_or(false));
                                 changed_keys.push((k, nonstring_both));
+                                if w.len() > 1 {
+                                    out.count("t3:changed_key_watched_more_than_once");
+                                    if *w.last().unwrap() == e {
+                                        out.count("t3:only_an_earlier_snapshot_differs");
+                                    }
+                                }
                             }
                         }
                         let expect_nil = !changed_keys.is_empty();
